@@ -138,6 +138,7 @@ def c04() -> int:
     # stations whose plug rates were lowered at run time
     fsx(c, RES + ({"variant": "core", "gas": True, "mechs": ("thirsty", "tiny_thirsty", "ice"), "throttle": 0.24, "name": "W-res/energy/throttled"},),
         ("hivemc.bundles", "c04", {}), K=2, H=6 if quick else 8, needs=["c04:charged:BEV:ChargingStation", "c04:charged:BEV:ChargingBase"])
+    auto_worlds(c, "c04", quick)
     return c.finish()
 
 
@@ -175,6 +176,7 @@ def c06() -> int:
         needs=["default:DispatchStation>Idle|default:DispatchStation>ChargingStation"])
     c.assumptions += ["speeds >= 10 km/h; links never declared shorter than the straight line; H3 resolution 15",
                       "journeys use a half-charged vehicle (the full-battery arrival is exercised in the FSX worlds)"]
+    auto_worlds(c, "c06", quick)
     return c.finish()
 
 
